@@ -8,6 +8,7 @@ import (
 	"github.com/anishathalye/porcupine"
 
 	"verifsim/core"
+	rd "verifsim/respdec"
 )
 
 // C05 — concurrent clients observe linearizable single-key operations.
@@ -45,16 +46,22 @@ func (g *c05gen) cmd(ci int, profile string) []B {
 	if profile == "mixed" && r.Bool(0.12) {
 		fam = pick(r, []string{"reg", "ctr", "list", "set", "hash"})
 	}
-	if r.Bool(0.12) {
+	if r.Bool(0.15) {
 		// KEYS is not a single-key command and is not required to be an atomic
-		// snapshot while writers are active: it is judged by the auditor at quiescence
-		switch r.Intn(3) {
+		// snapshot while writers are active.  What it must do even then: list every
+		// key that exists throughout the scan (the never-touched "st*" keys) and
+		// nothing that never existed; the exact check is the auditor's at quiescence
+		switch r.Intn(5) {
 		case 0:
 			return bs("del", k)
 		case 1:
 			return bs("exists", k)
 		case 2:
 			return bs("type", k)
+		case 3:
+			return bs("keys", "*")
+		default:
+			return bs("get", pick(r, stableKeys))
 		}
 	}
 	switch fam {
@@ -149,9 +156,12 @@ func auditSteps(keys []string, fam map[string]string) []Step {
 	return steps
 }
 
+// stableKeys exist from the preload on and are only ever read.
+var stableKeys = []string{"st0", "st1", "st2"}
+
 func genC05(r *core.Rand, env *core.Env, run int) *Scenario {
 	sc := &Scenario{Kind: "C05"}
-	sc.Knobs = Knobs{ShardNum: pick(r, []int{1, 1, 2, 3, 8, 1024}), Databases: 1, YieldRMW: r.Bool(0.8), MaxSteps: 6000,
+	sc.Knobs = Knobs{ShardNum: pick(r, []int{1, 1, 2, 3, 8, 1024}), Databases: 1, YieldRMW: r.Bool(0.8), MaxSteps: 30000,
 		Strategy: pick(r, []int{0, 0, 1, 1, 2}), PreemptPct: pick(r, []int{5, 15, 30, 50})}
 	profile := pick(r, []string{"reg", "ctr", "list", "set", "hash", "mixed", "mixed"})
 	nk := 1 + r.Intn(3)
@@ -164,6 +174,9 @@ func genC05(r *core.Rand, env *core.Env, run int) *Scenario {
 		} else {
 			g.fam[k] = profile
 		}
+	}
+	for _, k := range stableKeys {
+		sc.Knobs.Preload = append(sc.Knobs.Preload, bs("set", k, "stable"))
 	}
 	// some prior content
 	for _, k := range g.keys {
@@ -203,7 +216,45 @@ func judgeLin(prop string) func(sc *Scenario, rr *RunResult, env *core.Env) (str
 	return func(sc *Scenario, rr *RunResult, env *core.Env) (string, string) {
 		init := preloadModel(sc, sc.Knobs.Databases)
 		model := linModel(init)
-		ops := historyOps(rr, nil)
+		// concurrent KEYS: weak oracle (see genC05), not part of the linearizability check
+		universe := map[string]bool{}
+		for k := range init.DBs[0].Keys {
+			universe[k] = true
+		}
+		for _, c := range rr.Clients {
+			for _, op := range c.ops {
+				for _, a := range op.Args[min(1, len(op.Args)):] {
+					universe[string(a)] = true
+				}
+			}
+		}
+		for ci, c := range rr.Clients {
+			if c.prog.Role == "auditor" {
+				continue
+			}
+			for _, op := range c.ops {
+				if !op.Done || len(op.Args) != 2 || !strings.EqualFold(string(op.Args[0]), "keys") || op.Reply.Kind != rd.Array {
+					continue
+				}
+				got := map[string]bool{}
+				for _, e := range op.Reply.Arr {
+					got[string(e.Str)] = true
+					if !universe[string(e.Str)] {
+						return prop + "/keys-scan/phantom-key", fmt.Sprintf("client %d: KEYS * listed %q, which no command ever created", ci, e.Str)
+					}
+				}
+				for _, k := range stableKeys {
+					if _, pre := init.DBs[0].Keys[k]; pre && !got[k] {
+						rr.Probes["keys-scan-checked"]++
+						return prop + "/keys-scan/stable-key-missing", fmt.Sprintf("client %d: KEYS * = %s omits %q, which existed before, during and after the scan (EXISTS says 1)", ci, op.Reply.String(), k)
+					}
+				}
+				rr.Probes["keys-scan-checked"]++
+			}
+		}
+		ops := historyOps(rr, func(c *clientState, op *OpRec) bool {
+			return c.prog.Role == "auditor" || !(len(op.Args) > 0 && strings.EqualFold(string(op.Args[0]), "keys"))
+		})
 		if len(ops) == 0 {
 			return "", ""
 		}
